@@ -11,6 +11,7 @@ import Revm.Proofs.EvmLinkEther9
 import Revm.Proofs.EvmLinkStatic6
 import Revm.Proofs.EvmLinkTerm
 import Revm.Proofs.EvmLinkTotal4
+import Revm.Proofs.EvmLinkInit
 /-! C01Link — the whole-transaction model `Revm.Model.Evm.transact` (C01) SATISFIES the component properties.
 
 `Evm.transact` (EvmTx / EvmFrame / EvmLoop / EvmHost) was written independently of the component models that carry the
@@ -960,6 +961,38 @@ theorem transact_total_fresh_partial (spec : Nat) (pre : List PreAcct) (dbHasSto
   rcases transact_total_partial (2 * e.tx.gasLimit + 2) _ e spec hw (Nat.le_refl _) with ⟨o, w', h, _⟩ | ⟨err, h, h1, h2⟩
   · rw [h]; trivial
   · rw [h]; exact ⟨h1, h2⟩
+
+/-! ### ingredients for the residual interpreter-side panics (C25's per-frame invariant), proved but not yet threaded
+
+`init_inv` for the states `makeFrame` creates and `RespOk` for the answers of EvmHost. Still to do: the code-store size
+invariant along the run, the bound on the shared memory (2^62) per depth, `ChildOk` (output length) for delivered
+results and the memory-context facts of `insert_*_outcome` through `runLoop`. -/
+
+/-- LINK (C25 `init_inv` without its `Bytes` hypothesis): the initial interpreter state on ANY code satisfies C25's
+invariant — the jump analysis marks a position only where the opcode is JUMPDEST, so never in the padding -/
+theorem evm_init_inv_any_code (code input : List Nat) (gasLimit : Nat) (isStatic : Bool)
+    (spec target caller callValue : Nat) (env : Interp.Env) (mem : Memory.SharedMemory)
+    (hcl : code.length ≤ Memory.ISIZE_MAX) (hil : input.length ≤ Memory.ISIZE_MAX) (hgas : gasLimit < U64)
+    (henv : Revm.Proofs.Interp.EnvOk spec env) (hmem : Revm.Proofs.Interp.FreshMem mem) :
+    Revm.Proofs.Interp.Inv (Interp.IState.init code input gasLimit isStatic spec target caller callValue env mem) :=
+  (init_inv' code input gasLimit isStatic spec target caller callValue env mem hcl hil hgas henv hmem).1
+
+/-- LINK: the frame `make_create_frame` opens satisfies C25's invariant, with measure = its gas limit -/
+theorem evm_create_frame_init_inv (cfg : Cfg) (w w' : World) (i : Interp.CreateInputs) (mem : Memory.SharedMemory)
+    (f : Frame Journal.Checkpoint) (h : makeCreateFrame journalOps cfg w i mem = .ok (.frame f, w'))
+    (hcl : i.initCode.length ≤ Memory.ISIZE_MAX) (hg : i.gasLimit < U64)
+    (henv : Revm.Proofs.Interp.EnvOk cfg.spec cfg.env) (hm : Revm.Proofs.Memory.WF mem)
+    (hl : mem.buffer.length ≤ 2^62) :
+    Revm.Proofs.Interp.Inv f.interp ∧ Revm.Proofs.Interp.measure f.interp = i.gasLimit :=
+  makeCreateFrame_init_inv h hcl hg henv hm hl
+
+/-- LINK (C25 `RespOk` for EvmHost): with a code store whose entries are at most `isize::MAX` bytes, every `Host`
+answer is acceptable to the interpreter -/
+theorem evm_host_respOk (he : HostEnv) (w w1 : World) (op : Interp.HostOp) (resp : Interp.HostResp)
+    (h : answer he w op = .ok (resp, w1))
+    (hc : ∀ (wx : World) (hh : Nat) (bytes : List Nat), wx.codes = w.codes → wx.codeOf hh = some bytes →
+      bytes.length ≤ Memory.ISIZE_MAX) : Revm.Proofs.Interp.RespOk resp :=
+  answer_respOk h hc (fun _ _ _ hl => w_loadCode_codes hl)
 
 /-- non-vacuity: the sample world is well formed -/
 example : WOk sampleWorld := wok_fresh sampleWorld 17 (fun _ => false) rfl (by
